@@ -47,8 +47,24 @@ pub fn run_all(args: &Args) {
     let linter = mk_linter(rules, &Words::default());
     let mut per_file = vec![];
     for i in 0..n {
-      let kind = crng.below(10);
+      // small totals on purpose: every fourth set is all clean, every fourth all clean but one single-finding file
+      let kind = match case_no % 4 {
+        0 => 4,
+        1 if i == n / 2 => 100,
+        1 => 4,
+        _ => crng.below(10),
+      };
       let (body, k) = match kind {
+        100 => (
+          match (rule_mode, rule_name) {
+            (1, "no-debugger") => "debugger;\n",
+            (1, "eqeqeq") => "export const q = a == b;\n",
+            (1, _) => "const y: any = 1;\nexport default y;\n",
+            (2, _) => "if (x) {}\n",
+            _ => "debugger;\n",
+          },
+          "single-finding",
+        ),
         0..=3 => (LINTY[crng.below(LINTY.len())], "linty"),
         4..=5 => (CLEAN[crng.below(CLEAN.len())], "clean"),
         6..=8 => (RECOVERABLE[crng.below(RECOVERABLE.len())], "recoverable"),
@@ -91,6 +107,7 @@ pub fn run_all(args: &Args) {
     out.count(&format!("rule-mode={}", rule_mode));
     let mut sorted = files.clone();
     sorted.sort();
+    out.count(&format!("expected-total={}", match expected { 0 => "0", 1 => "1", 2 => "2", _ => "3+" }));
     let meta = json!({"dir": dir, "files": files, "extra": extra, "per_file": per_file, "expected_count": expected, "with_fatal": with_fatal});
     let reference = run(BIN, &dir, &sorted, 1, &extra);
     out.eval(&format!("{}", case_no), true, json!({"meta": meta, "stderr_threads1": reference.1.chars().take(400).collect::<String>()}));
